@@ -549,7 +549,12 @@ def run_cell(case, obs, casedir):
            f'on {dest}, list={case["inject"]}'
 
     fmtarg = fmt if (case['how'] == 'given' or (unknown and fmt)) else None
-    exc, events, nwarn = do_write(api, regs, path, fmtarg, ow, kw)
+    wpath = path
+    if fmtarg is not None and not unknown and case['cell'] % 3 == 0:
+        import pathlib
+        wpath = pathlib.Path(path)          # the same destination named by a path object
+        obs.count('destination-given-as-pathlib-Path')
+    exc, events, nwarn = do_write(api, regs, wpath, fmtarg, ow, kw)
     after = snap(path)
     after_t = snap(target)
     listing2 = sorted(os.listdir(casedir))
